@@ -229,11 +229,18 @@ impl<JT: JobContextTransition + Send + Sync> OptionalBreakState<JT> {
     /// Removes breaks which conditions are violated after ruin:
     /// * break without location served separately when original job is removed, but break is kept.
     /// * break is defined by interval, but its time is violated. This might happen due to departure time rescheduling.
+    /// * break is the only job left in the tour: a vehicle is not used just to have a break.
     fn remove_invalid_breaks(&self, solution_ctx: &mut SolutionContext) {
         let breaks_to_remove = solution_ctx
             .routes
             .iter()
             .flat_map(|route_ctx| {
+                let has_only_breaks = route_ctx
+                    .route()
+                    .tour
+                    .jobs()
+                    .all(|job| job.as_single().is_some_and(|single| (self.break_fns.is_break_single_fn)(single)));
+
                 route_ctx
                     .route()
                     .tour
@@ -263,7 +270,7 @@ impl<JT: JobContextTransition + Send + Sync> OptionalBreakState<JT> {
                             || !can_be_scheduled(route_ctx, break_single, &self.break_fns.policy_fn);
                         let is_ovrp_last = route_ctx.route().tour.end().is_some_and(|end| std::ptr::eq(activity, end));
 
-                        if is_orphan || is_not_on_time || is_ovrp_last {
+                        if is_orphan || is_not_on_time || is_ovrp_last || has_only_breaks {
                             breaks.insert(Job::Single(break_single.clone()));
                         }
 
